@@ -364,7 +364,9 @@ def gaussian_filter1d(array, sigma, axis=-1, order=0, mode='reflect', cval=0., o
         weights *= -(3.0 - x*x/s2)*x/(s2*s2)
     else:
         raise ValueError('mahotas.convolve.gaussian_filter1d: Order outside 0..3 not implemented')
-    return convolve1d(array, weights, axis, mode, cval, out=output)
+    if out is None:
+        out = output
+    return convolve1d(array, weights, axis, mode, cval, out=out)
 
 
 def gaussian_filter(array, sigma, order=0, mode='reflect', cval=0., out=None, output=None):
@@ -418,13 +420,17 @@ def gaussian_filter(array, sigma, order=0, mode='reflect', cval=0., out=None, ou
     orders = _normalize_sequence(array, order, 'gaussian_filter')
     sigmas = _normalize_sequence(array, sigma, 'gaussian_filter')
     output[...] = array[...]
+    result = output
     noutput = None
     for axis in range(array.ndim):
         sigma = sigmas[axis]
         order = orders[axis]
         noutput = gaussian_filter1d(output, sigma, axis, order, mode, cval, noutput)
         output,noutput = noutput,output
-    return output
+    if output is not result:
+        # the ping-pong ended in the scratch buffer: the caller's buffer must hold the result
+        result[...] = output
+    return result
 
 def _wavelet_array(f, inline, func):
     f = _as_floating_point_array(f)
